@@ -57,6 +57,7 @@ def proof_step(prop_id, cfg):
     res = {"obligations": 0, "discharged": 0, "theorems": [], "assumptions": {}, "ok": False, "log": ""}
     # textual audit: no axioms, no admits, no disabled checks anywhere in the development
     bad = []
+    model.generate()
     for f in coq_files() + ["ExtractAll.v"]:
         p = os.path.join(COQ, f)
         if not os.path.exists(p):
@@ -106,6 +107,12 @@ def canon(case):
 
 def run_pair(fam, drv, cases, jobs=8):
     """Run cases through implementation and model; returns (impl_outs, model_outs)."""
+    if getattr(fam, "PIPE", False):
+        # acceptor shape: the model reads the case followed by a line [-1] and the implementation's output
+        impl = runner.run_batch([drv] + getattr(fam, "DRIVER_ARGS", []), cases, 10.0, fam.NAME + "-impl")
+        piped = [c + [[-1]] + (o if isinstance(o, list) else [[-2]]) for c, o in zip(cases, impl)]
+        mod = runner.run_batch([model.RUNNER, fam.MODEL_FAMILY], piped, 10.0, fam.NAME + "-model")
+        return impl, mod
     chunks = [cases[i::jobs] for i in range(jobs)] if len(cases) >= 64 else [cases]
     chunks = [c for c in chunks if c]
     with cf.ThreadPoolExecutor(max_workers=2 * len(chunks)) as ex:
